@@ -52,7 +52,11 @@ _E2_BOUNDS = {"quick": "5-40 ops, <=8 contexts, depth<=4, par blocks of 2-3 task
               "thorough": "5-70 ops, <=10 contexts, depth<=4, par blocks of 2-4 tasks, both backends, 16x40000 histories"}
 _E2_GEN = ("histories of new-child / enter / leave / add_resource / add_resource_factory / lookup (8 lookup APIs) / "
            "parallel sub-histories over a growing context tree, drawn by a model-guided composite strategy; the "
-           "reference model is applied online and every open context's get_resources view is compared after every op; ")
+           "reference model is applied online and every open context's get_resources view is compared after every op; "
+           "every third resource value is an object whose truth value is False; ")
+_E2_REENTRANT = ("; plus (C03/C04/C18) the complete family of re-entrant factories (harness/engines/reentrant.py: a factory of 1-3 "
+                 "types whose callback publishes under a subset of its own pairs, x requested type x 6 lookup APIs x sync/async "
+                 "factory x same/child context x backend = 6048 cells, enumerated in both tiers and sampled (5%) in the search)")
 
 PROPS["C02"] = Spec(
     engine="harness.engines.resources", bounds=_E2_BOUNDS, quick_cases=1500, thorough_cases=40000,
@@ -64,20 +68,20 @@ PROPS["C03"] = Spec(
     engine="harness.engines.resources", bounds=_E2_BOUNDS, quick_cases=1500, thorough_cases=40000,
     rule=_E2_GEN + "40% of adds reuse a taken pair, invalid names/None/invalid types/invalid teardown callbacks are injected; "
     "non-trivial = a raising add/factory registration with >=2 types, or a generation into a context that already holds "
-    "one of the factory's pairs",
+    "one of the factory's pairs" + _E2_REENTRANT,
     assumptions=COMMON_ASSUMPTIONS,
 )
 PROPS["C04"] = Spec(
     engine="harness.engines.resources", bounds=_E2_BOUNDS, quick_cases=1500, thorough_cases=40000,
     rule=_E2_GEN + "factories sync/async with 0-2 checkpoints, types by argument or annotation; par blocks race lookups of "
     "one async factory; non-trivial = a generation followed by creation of a child and a lookup of that factory in the "
-    "child, or a par block with >=2 async lookups of one checkpointing factory",
+    "child, or a par block with >=2 async lookups of one checkpointing factory" + _E2_REENTRANT,
     assumptions=COMMON_ASSUMPTIONS,
 )
 PROPS["C18"] = Spec(
     engine="harness.engines.resources", bounds=_E2_BOUNDS, quick_cases=1500, thorough_cases=40000,
     rule=_E2_GEN + "a resource_added stream is opened on every entered context and drained up to a sentinel before it is "
-    "left; non-trivial = >=2 listening contexts and at least one successful and one failing add/registration",
+    "left; non-trivial = >=2 listening contexts and at least one successful and one failing add/registration" + _E2_REENTRANT,
     assumptions=COMMON_ASSUMPTIONS,
 )
 
@@ -209,11 +213,12 @@ PROPS["C08"] = Spec(
 PROPS["C09"] = Spec(
     engine="harness.engines.taskfactory", quick_cases=2500, thorough_cases=60000,
     rule="a task factory started in a root or nested context F (0-2 resources before, more added after; handler absent / truthy / "
-    "falsy / None-returning) and 2-14 (thorough 2-24) operations: spawn via start_task / start_task_soon (with task_status, names) "
+    "falsy / None-returning; a function or a callable object, some with a False truth value) and 2-14 (thorough 2-24) operations: spawn via start_task / start_task_soon (with task_status, names) "
     "from F, from a nested child context holding other resources, or from inside another factory task; task outcomes return after "
     "d / raise after d / wait for an event / run until cancelled; cancel(h), wait_finished(h), sleeps, set-event, and observations "
     "of all_task_handles() at instants (k/64 offsets) where no task can be ending; F is left while 0-n tasks still run; optionally "
-    "one exception the handler does not claim; spawn attempts after F was left; oracle: handle set == spawned-and-not-ended, "
+    "one exception the handler does not claim; spawn attempts after F was left; oracle: handle set == spawned-and-not-ended (also after the caller "
+    "emptied the set a previous call returned), "
     "wait_finished returns at max(call, end), cancel ends only its task, each task sees exactly F's resources as of factory start "
     "in a fresh context inheriting from the factory's, F is left at max(end times) without cancelling, handler called once per "
     "escaping exception, unclaimed exception surfaces from the root context; non-trivial = >=2 tasks alive at a cancel or at "
@@ -260,7 +265,7 @@ PROPS["C15"] = Spec(
     engine="harness.engines.runner", quick_cases=3500, thorough_cases=50000,
     rule="a 1-4 (thorough 1-6) component application (CLI or not) whose prepare()/start() scripts register teardown callbacks (with "
     "and without pass_exception) and service tasks between sleeps, run through run_application under virtual time with one "
-    "generated ending: run() returning None/0/1/5/127/128/255/-1/'x'/1.5 or raising; an exception while creating/preparing/"
+    "generated ending: run() returning None/0/1/5/127/128/255/-1/'x'/1.5/IntEnum members/int-subclass instances or raising; an exception while creating/preparing/"
     "starting any component; a stalling component plus start_timeout; SIGINT/SIGTERM raised in-process from a component's phase, "
     "from a service task before startup completes, or after startup (non-CLI); a service task crashing during or after startup; "
     "oracle: the statement's outcome table (plain return / SystemExit(n) / SystemExit(1) + exactly one warning / the original "
